@@ -24,6 +24,7 @@ WITNESS = {
     "standin_pagination": ("src/protocol/handler.rs", "pagination: len <= 6, limit/offset in {None,0..8}; sort: <= 4 rows from 11 mixed-kind values, both directions"),
     "standin_workers": ("src/code_generator/mod.rs", "20 programs covering every operator class x workers {2,3,4,8} vs 1 worker, 42-edge graph"),
     "standin_value_laws": ("src/value/mod.rs", "all pairs and triples of ~85 representative values (strings <= 41 chars, vectors <= 33 elements) and ~100 tuples of length <= 2"),
+    "standin_rewrites": ("src/optimizer/mod.rs", "26 programs x 7 optimizer configurations x 4 engine instances, 4 small relations"),
     "standin_delete": ("src/storage_engine/mod.rs", "relations of 0..300 tuples x 7 delete batches mixing present/absent/repeated tuples"),
     "standin_histories_clean": ("src/storage_engine/mod.rs", "every clean insert/delete history of length <= 5 over 2 tuples, save, restart"),
     "standin_histories_dirty": ("src/storage_engine/mod.rs", "every history of length <= 3 over 2 tuples with a re-insert or an absent delete, save, restart"),
@@ -66,9 +67,9 @@ def run(unit, repo, root, synced=False, group=None):
     with open("/var/tmp/ilverif/witness_%s.log" % unit, "w") as f:
         f.write(out)
     res = {"bound": bound, "cmd": " ".join(cmd), "wall_s": round(time.time() - t0, 1)}
-    m = re.search(r"VERIF-WITNESS//FOUND ([^\n]*)", out)
-    if m:
-        res.update(status="found", detail=m.group(1))
+    found = re.findall(r"VERIF-WITNESS//FOUND ([^\n]*)", out)
+    if found:
+        res.update(status="found", detail=found[0], found_all=found[:200])
         return res
     m = re.search(r"VERIF-WITNESS//NONE ([^\n]*)", out)
     if m and "test result: ok" in out:
